@@ -57,4 +57,3 @@ func VerifC11_LiteralRoundTrip() {
 	got := ParseZqlString(lit)
 	verifrt.Assert(got == s, "C11 literal denotes exactly s")
 }
-
